@@ -399,7 +399,14 @@ def rule_packed(R, ctx, rid="C09.packed"):
     rf = Y.fn(dec + "IntDiffOptRleDecoder::read_u32")
     wv = FnView(wf)
     words = [wv.arg(cs, 1, 20) for cs in wf.calls() if re.search(r"::write_var(_signed)?$", F.strip_generics(cs.name)) and len(cs.args) > 1]
-    shl = [b for w in words for b in _bins(w, "Shl") if term_has_field(b[2], "IntDiffOptRleEncoder.diff")]
+    def _plain_field(t, suffix):
+        t = simp_deep(t)
+        while isinstance(t, tuple) and t and t[0] in ("cast", "as", "copy", "deref", "ref") and isinstance(t[-1], tuple):
+            t = simp_deep(t[-1])
+        return isinstance(t, tuple) and t and t[0] == "field" and t[1].endswith(suffix)
+    # the shifted operand is the signed diff itself — two's complement keeps the flag in bit 0 for negative diffs too; a sign +
+    # magnitude packing (|diff| << 1 | flag, negated afterwards) writes -(2m + 1) where the reader expects -2m + 1
+    shl = [b for w in words for b in _bins(w, "Shl") if _plain_field(b[2], "IntDiffOptRleEncoder.diff")]
     k = _const(shl[0][3]) if shl else None
     R.ob(rid, wf, "pack:diff", k is not None, "writer packs the diff shifted left by %s" % k if k is not None else
          "no `self.diff << const` in a written word: %s" % [sshow(w, 8) for w in words])
@@ -411,6 +418,16 @@ def rule_packed(R, ctx, rid="C09.packed"):
             flags += [c for c in (_const(x) for x in walk(other)) if c is not None]
         R.ob(rid, wf, "pack:flag", bool(flags) and all(0 <= c < (1 << k) for c in flags),
              "flag values %s fit below bit %d" % (sorted(set(flags)), k))
+
+        def _strip_casts(t):
+            t = simp_deep(t)
+            while isinstance(t, tuple) and t and t[0] in ("cast", "as", "copy") and isinstance(t[-1], tuple):
+                t = simp_deep(t[-1])
+            return t
+        whole = [w for w in words if ors and _strip_casts(w) in [simp_deep(o) for o in ors]]
+        R.ob(rid, wf, "pack:word", bool(whole), "the packed word is written as it is" if whole else
+             "the word handed to write_var is not the packed `diff << %d | flag` itself (negated, selected or re-packed afterwards): %s" %
+             (k, [sshow(w, 8) for w in words][:2]))
         dws = _field_writes_terms(rf, "IntDiffOptRleDecoder.diff")
         R.floor(rid, "reader writes of IntDiffOptRleDecoder.diff", len(dws), 1)
         for n, (st, t) in enumerate(dws):
